@@ -19,25 +19,25 @@ open QuickAdd
 
 /-- the subject's words, in order, are a sublist of the text's words -/
 theorem subject_sublist (txt : List Nat) (tokenTexts : List (List Nat)) :
-    ((reSplit (reLit "_ctparse" "split") txt).filter fun w => !(tokenTexts.flatMap splitWs).contains w).Sublist (reSplit (reLit "_ctparse" "split") txt) :=
+    ((reSplit (reLit "_ctparse" "split") txt).filter fun w => !(usedWords tokenTexts).contains w).Sublist (reSplit (reLit "_ctparse" "split") txt) :=
   List.filter_sublist
 
 /-- a word that is not a word of any token text is kept -/
 theorem subject_keeps_unused (txt : List Nat) (tokenTexts : List (List Nat)) (w : List Nat)
-    (hw : w ∈ reSplit (reLit "_ctparse" "split") txt) (hu : w ∉ tokenTexts.flatMap splitWs) :
-    w ∈ (reSplit (reLit "_ctparse" "split") txt).filter fun w => !(tokenTexts.flatMap splitWs).contains w := by
-  have : (tokenTexts.flatMap splitWs).contains w = false := by simpa using hu
+    (hw : w ∈ reSplit (reLit "_ctparse" "split") txt) (hu : w ∉ usedWords tokenTexts) :
+    w ∈ (reSplit (reLit "_ctparse" "split") txt).filter fun w => !(usedWords tokenTexts).contains w := by
+  have : (usedWords tokenTexts).contains w = false := by simpa using hu
   rw [List.mem_filter]; exact ⟨hw, by rw [this]; rfl⟩
 
 /-- a word of a token text of the initial stack never appears in the subject -/
-theorem subject_drops_used (txt : List Nat) (tokenTexts : List (List Nat)) (w : List Nat) (hu : w ∈ tokenTexts.flatMap splitWs) :
-    w ∉ (reSplit (reLit "_ctparse" "split") txt).filter fun w => !(tokenTexts.flatMap splitWs).contains w := by
-  have : (tokenTexts.flatMap splitWs).contains w = true := by simpa using hu
+theorem subject_drops_used (txt : List Nat) (tokenTexts : List (List Nat)) (w : List Nat) (hu : w ∈ usedWords tokenTexts) :
+    w ∉ (reSplit (reLit "_ctparse" "split") txt).filter fun w => !(usedWords tokenTexts).contains w := by
+  have : (usedWords tokenTexts).contains w = true := by simpa using hu
   rw [List.mem_filter]; intro h; rw [this] at h; simp at h
 
 /-- `subjectOf` is the blank-join of exactly that filtered list -/
 theorem subject_def (txt : List Nat) (tokenTexts : List (List Nat)) :
-    subjectOf txt tokenTexts = joinBlank ((reSplit (reLit "_ctparse" "split") txt).filter fun w => !(tokenTexts.flatMap splitWs).contains w) := rfl
+    subjectOf txt tokenTexts = joinBlank ((reSplit (reLit "_ctparse" "split") txt).filter fun w => !(usedWords tokenTexts).contains w) := rfl
 
 /-- labels never contain '#' -/
 theorem labels_no_hash (txt : List Nat) (l : List Nat) (h : l ∈ getLabels txt) : 35 ∉ l := by
@@ -68,5 +68,14 @@ theorem nomatch_path (raw : List Nat) :
 /-- concrete instance: hashtags with dashes and digits, separators, repeated words -/
 example : (getLabels ("call #follow-up bob #b_2".toList.map Char.toNat)).map (fun l => String.ofList (l.map Char.ofNat)) = ["follow-up", "b_2"] := by decide +kernel
 example : String.ofList ((noMatchSubject ("foo, bar  #x  (baz)".toList.map Char.toNat)).1.map Char.ofNat) = "foo bar baz" := by decide +kernel
+
+/-- the repaired splitting (DESIGN §8 D30): the words of a dashed match are recognised as used, so none of them stays in the subject -/
+example : String.ofList ((subjectOf ("lunch 12-12-2020 - 14-12-2020 xyzzy".toList.map Char.toNat)
+    ["12-12-2020".toList.map Char.toNat, "-".toList.map Char.toNat, "14-12-2020".toList.map Char.toNat]).map Char.ofNat) = "lunch xyzzy" := by decide +kernel
+/-- used words are obtained by the same splitting as the words of the text (by definition; the statement the repair restores) -/
+theorem used_words_same_split (tokenTexts : List (List Nat)) (w : List Nat) :
+    w ∈ usedWords tokenTexts ↔ ∃ t ∈ tokenTexts, w ∈ reSplit (reLit "_ctparse" "split") t ∧ w ≠ [] := by
+  unfold usedWords
+  simp only [List.mem_flatMap, List.mem_filter, Bool.not_eq_true', List.isEmpty_eq_false_iff]
 
 end QuickAdd.C10
